@@ -294,6 +294,7 @@ func Run(c *fw.Ctx) {
 	sampled := map[string]sample{}
 	for w := 0; w < fw.Workers(); w++ {
 		wg.Add(1)
+		slot := fw.NewSlot()
 		go func() {
 			defer wg.Done()
 			for {
@@ -309,7 +310,9 @@ func Run(c *fw.Ctx) {
 				if b.core > 5 && (ins[i].kind == "v6-message" || ins[i].kind == "v6-message-decoded") && ordinal[i]%8 != 0 {
 					bi.core = 5 // thorough: the longest core sequences on every 8th message only (all messages share the Message/RelayMessage printing and encoding code)
 				}
+				fw.Track(slot, int64(i), func() string { return "value " + ins[i].kind + " " + ins[i].name })
 				pv, stack := fw.Safe(func() { st = e.explore(bi) })
+				fw.Untrack(slot)
 				if profile {
 					fmt.Fprintf(os.Stderr, "profile %-22s %-70s actions=%-4d size=%-6d fullsnap=%v/%v paths=%-7d execs=%-9d %.2fs\n", ins[i].kind, short(ins[i].name, 70), st.actions, ins[i].size, st.fullSnapL2, st.fullSnapCore, st.paths, st.execs, time.Since(t0).Seconds())
 				}
